@@ -1,13 +1,25 @@
 # Driver configuration for property C04
 PROP = dict(
     pkg="c04", level="exploration",
-    technique="differential PBT: node that followed a fork and reverted vs node that never saw it (observational equality over the whole Reader API)",
-    level_text=("Exploration: generated chain trees (prefix, two forks, fork point anywhere) on both state backends; after every RevertHead the node "
-                "is compared, over every Reader accessor, historical state at every block/hash and per-address event queries, with a fresh node "
-                "that stored only the remaining blocks; finally with a node that followed the second fork directly."),
-    rule=("prefix 0-4 + F1 1-4 + F2 1-4 generated blocks, 4 protocol versions, both backends, optional cache warm-up, restarts and re-apply; "
+    technique="differential PBT: node that followed a fork and reverted vs node that never saw it (observational equality over the whole Reader API), plus drawn event queries against a naive scan of the model chain's receipts, on short chains and across the 8192-block event-index window boundary",
+    level_text=("Exploration: generated chain trees (prefix, two forks, fork point anywhere) on both state backends, on an empty database and "
+                "(a sixth of the cases) on top of a per-process base image of 8186 real blocks (thorough also 16378) so that reverts, fork points "
+                "and the second fork cross the aggregated event-bloom window boundary in both directions; after every RevertHead the node "
+                "is compared, over every Reader accessor, historical state at every block/hash (on the long chains: head state plus a drawn "
+                "historical probe) and per-address event queries, with a fresh node that stored only the remaining blocks; finally with a node "
+                "that followed the second fork directly. Drawn event queries (address sets, key alternatives, ranges, page sizes, scan limits) "
+                "are issued on the same long-lived Blockchain object before the reverts, between individual reverts, while following the second "
+                "fork and after convergence, each checked against a naive scan of the model chain and against the other node."),
+    rule=("short: prefix 0-4 + F1 1-4 + F2 1-4 generated blocks; long (1/6): base image of 8186 empty blocks cloned per case + prefix 0-9 "
+          "(common head 8185..8194, weighted to fork points just below block 8192) + F1 1-5 + F2 1-5 (a fifth of them with F1 ending exactly "
+          "on the last block of the window); 4 protocol versions, both backends, optional cache warm-up, ungraceful and graceful "
+          "(snapshot-writing) restarts before any revert and before the second fork, re-apply; between reverts on the long chains drawn: full "
+          "comparison / drawn event queries only / nothing; "
           "non-trivial = F1 contains one of the content classes the property lists (declare+deploy+touch, zero write, system contract, "
-          "CASM migration, L1 handler, replaced class); distinct = SHA-256 over backend, shape and block hashes."),
-    assumptions=["blocks are sealed with the reference state root and juno's block-hash function", "raw DB dumps compared as information only"],
+          "CASM migration, L1 handler, replaced class) or the reverts take back the last block of a completed window; "
+          "distinct = SHA-256 over backend, base, shape, block hashes and drawn queries."),
+    assumptions=["blocks are sealed with the reference state root and juno's block-hash function", "raw DB dumps compared as information only (short chains)",
+                 "base-image blocks are empty (no events, empty state diffs): events and state exist only in the generated blocks",
+                 "on the in-memory database a historical state read costs time proportional to the database, so the long-chain cases sample the historical state instead of sweeping it (the short-chain cases keep the full sweep)"],
     runs=[dict(run="^Test(Prop|Known)")],
 )
